@@ -73,6 +73,8 @@ def main(argv):
                 p = subprocess.run([os.path.join(d, 'drv')] + args, stdout=subprocess.PIPE, stderr=subprocess.STDOUT, timeout=60)
                 return p.returncode, p.stdout.decode(errors='replace').splitlines()
             runs.append((('none', -1, 'all bound'), run(['none', '0'])))
+            if c['cfg']['ports'].get('mc'):
+                runs.append((('zero', -1, 'all bound, no client registered'), run(['zero', '0'])))
             for k, label in index:
                 runs.append((('user', k, label), run(['user', str(k)])))
             for k, p, e in MM.enc_handler_count(pl):
@@ -93,6 +95,12 @@ def main(argv):
                     continue
                 if rc != 0:
                     problem = f'driver crashed (rc={rc}) with {label} unbound: {lines[-3:]}'
+                elif who == 'zero':
+                    # final construction with no registered client: it still closes the registration
+                    if not lines or not lines[0].startswith('OK parent=parent'):
+                        problem = f'all events bound and no client registered, but FinalConstruct did not succeed: {lines[:2]}'
+                    elif 'LATE-REGISTRATION-REFUSED' not in lines:
+                        problem = f'a client could be registered after a final construction that found no registered client: {lines[1:3]}'
                 elif who == 'none':
                     if not lines or not lines[0].startswith('OK parent=parent'):
                         problem = f'all events bound, but FinalConstruct did not succeed and record the parent: {lines[:2]}'
